@@ -1547,11 +1547,61 @@ def itemsOK : Option UInt8 → Bool → List Nat → List Item → Bool
 /-- `Spaced q`: the printed text of `q` satisfies the adjacency condition (decidable) -/
 def Spaced (q : Query) : Bool := itemsOK none false [] (itemsQ q)
 
+/-! ### Printable programs: module header, imports, definitions-only bodies -/
+
+mutual
+  def okCT : CTerm → Bool
+    | .obj kvs => okCKVs kvs
+    | .arr es => okCTs es
+    | .number s => okNumber s
+    | .str v => okLit v
+    | .null => true
+    | .true_ => true
+    | .false_ => true
+  def okCKV : CKV → Bool
+    | .mk isStr key v => (if isStr then okLit key else isIdentName key) && okCT v
+  def okCKVs : List CKV → Bool
+    | [] => true
+    | kv :: kvs => okCKV kv && okCKVs kvs
+  def okCTs : List CTerm → Bool
+    | [] => true
+    | e :: es => okCT e && okCTs es
+end
+
+def okMeta : Option (List CKV) → Bool
+  | none => true
+  | some kvs => okCKVs kvs
+
+def okImport : Import → Bool
+  | .import_ path a m => okLit path && (isPlainIdent a || isVarName a) && okMeta m
+  | .include_ path m => okLit path && okMeta m
+
+def okBody : Body → Bool
+  | .defs ds => ds.all okFD
+  | .query q => Printable q
+
+/-- `PrintableProgram p`: `p` has the shape of a program the parser can produce -/
+def PrintableProgram (p : Program) : Bool := okMeta p.md && p.imports.all okImport && okBody p.body
+
+/-- the reference parse of a source text with an explicit recursion budget -/
+def refParseF (f : Nat) (src : Bytes) : Option Program := pProgram f (tokensOf src)
+
 /-- executable self-check (used by the exploratory stream only): the reference parser's result is
     Printable and parsing its token-level print gives it back -/
+def selfCheckP (src : Bytes) : String :=
+  match refParse src with
+  | none => "rejected"
+  | some p =>
+    if !PrintableProgram p then "NOT-PRINTABLE"
+    else if !itemsOK none false [] (itemsProgram p) then "NOT-SPACED"
+    else
+      match refParse (printProgram p) with
+      | some p' => if Parse.dump (astProgram p') == Parse.dump (astProgram p) then "ok" else "DIFFERENT"
+      | none => "REPARSE-FAILED"
+
 def selfCheck (src : Bytes) : String :=
   match refParseQ (16 * src.length + 64) (tokensOf src) with
-  | none => "rejected"
+  | none => selfCheckP src
   | some q =>
     if !Printable q then "NOT-PRINTABLE"
     else if !Spaced q then "NOT-SPACED"
